@@ -104,12 +104,13 @@ Definition flipi (sh : list nat) (c : nat) (i : idx) : idx :=
 Definition swapi (a b : nat) (i : idx) : idx := swap_nth 0%nat a b i.
 Definition sigma (a b x : nat) : nat := if (x =? a)%nat then b else if (x =? b)%nat then a else x.
 
-(* mesh of the transposed array: cells per axis and cell sizes exchanged; the periodic flags stay
-   attached to the axis positions (Mesh.rotate90 passes bc on unchanged) *)
+(* mesh of the transposed array: cells per axis, cell sizes AND periodic flags of the two axes exchanged
+   (Mesh.rotate90 swaps n and, since 6c074f8c, the two letters in bc for odd k; the region swaps its
+   edge lengths) *)
 Definition swapM (M : cmesh K) (a b : nat) : cmesh K :=
-  mkCMesh K (swap_nth 0%nat a b (cm_sh M)) (swap_nth 0 a b (cm_cell M)) (cm_per M).
+  mkCMesh K (swap_nth 0%nat a b (cm_sh M)) (swap_nth 0 a b (cm_cell M)) (swap_nth false a b (cm_per M)).
 
-Definition wfM (M : cmesh K) : Prop := length (cm_cell M) = cm_nd M.
+Definition wfM (M : cmesh K) : Prop := length (cm_cell M) = cm_nd M /\ length (cm_per M) = cm_nd M.
 
 Lemma flip_ax_eq {V} sh c (f : idx -> V) : flip_ax sh c f = fun i => f (flipi sh c i).
 Proof. reflexivity. Qed.
@@ -164,21 +165,20 @@ Qed.
 Theorem dax_swap (M : cmesh K) a b x order g valid (q : idx) z :
   (order = 1 \/ order = 2)%nat -> wfM M -> a <> b -> (a < cm_nd M)%nat -> (b < cm_nd M)%nat ->
   (x < cm_nd M)%nat -> length q = cm_nd M ->
-  nth a (cm_per M) false = nth b (cm_per M) false ->
   (nth x q 0 < nth (sigma a b x) (cm_sh M) 0)%nat ->
   dax K (swapM M a b) order x (fun i => g (swapi a b i)) (fun i => valid (swapi a b i)) (q ++ [z])
   = dax K M order (sigma a b x) g valid (swapi a b q ++ [z]).
 Proof.
-  intros Ho Hwf Hab Ha Hb Hx Hq Hper Hpx.
+  intros Ho [Hwf Hwp] Hab Ha Hb Hx Hq Hpx.
   rewrite <- swapi_app by lia.
   change (dax K M order (sigma a b x) g valid (swapi a b (q ++ [z])))
     with (msgn false order (dax K M order (sigma a b x) g valid (swapi a b (q ++ [z])))).
-  unfold cm_nd in *. unfold wfM, cm_nd in Hwf.
+  unfold cm_nd in *.
   assert (Hs : (sigma a b x < length (cm_sh M))%nat) by (unfold sigma; nthsolve).
   apply dax_pull; try assumption.
   - unfold swapM, sigma, swap_nth. simpl cm_sh. nthsolve.
   - unfold swapM, sigma, swap_nth. simpl cm_cell. nthsolve.
-  - unfold swapM, sigma. simpl cm_per. nthsolve.
+  - unfold swapM, sigma, swap_nth. simpl cm_per. nthsolve.
   - unfold swapM, cm_nd. simpl cm_sh. rewrite swap_nth_length. exact Hx.
   - rewrite app_nth1 by lia. exact Hpx.
   - intros j Hj. unfold swapi, swap_nth, mpos, sigma.
@@ -232,13 +232,12 @@ Let sh := cm_sh M.
 
 Lemma rot1 x order g valid (q : idx) z :
   (order = 1 \/ order = 2)%nat -> (x < cm_nd M)%nat ->
-  nth a (cm_per M) false = nth b (cm_per M) false ->
   in_rng (swap_nth 0%nat a b sh) q ->
   dax K (swapM M a b) order x
       (fun i => g (flipi sh b (swapi a b i))) (fun i => valid (flipi sh b (swapi a b i))) (q ++ [z])
   = msgn (x =? a)%nat order (dax K M order (sigma a b x) g valid (flipi sh b (swapi a b q) ++ [z])).
 Proof.
-  intros Ho Hx Hper [Hq Hr]. unfold sh, cm_nd in *. rewrite swap_nth_length in Hq, Hr.
+  intros Ho Hx [Hq Hr]. unfold sh, cm_nd in *. rewrite swap_nth_length in Hq, Hr.
   pose proof (Hr a Ha) as Ra. pose proof (Hr b Hb) as Rb. pose proof (Hr x Hx) as Rx.
   unfold swap_nth in Ra, Rb, Rx.
   rewrite (dax_swap M a b x order (fun i => g (flipi (cm_sh M) b i)) (fun i => valid (flipi (cm_sh M) b i)) q z)
@@ -268,7 +267,6 @@ Qed.
 
 Lemma rot3 x order g valid (q : idx) z :
   (order = 1 \/ order = 2)%nat -> (x < cm_nd M)%nat ->
-  nth a (cm_per M) false = nth b (cm_per M) false ->
   in_rng (swap_nth 0%nat a b sh) q ->
   dax K (swapM M a b) order x
       (fun i => g (swapi a b (flipi (swap_nth 0%nat a b sh) b i)))
@@ -276,7 +274,7 @@ Lemma rot3 x order g valid (q : idx) z :
   = msgn (x =? b)%nat order
       (dax K M order (sigma a b x) g valid (swapi a b (flipi (swap_nth 0%nat a b sh) b q) ++ [z])).
 Proof.
-  intros Ho Hx Hper [Hq Hr]. unfold sh, cm_nd in *. rewrite swap_nth_length in Hq, Hr.
+  intros Ho Hx [Hq Hr]. unfold sh, cm_nd in *. rewrite swap_nth_length in Hq, Hr.
   pose proof (Hr a Ha) as Ra. pose proof (Hr b Hb) as Rb. pose proof (Hr x Hx) as Rx.
   assert (Hnd : cm_nd (swapM M a b) = length (cm_sh M)).
   { unfold cm_nd, swapM. simpl. apply swap_nth_length. }
@@ -305,19 +303,18 @@ Qed.
 
 (* the directional derivative of the rotated field = (signed) rotated derivative of the field along
    the source axis; arbitrary masks (rotated along), any numbers of cells, any k.
-   Periodic directions: for odd k the two axes of the plane must be both periodic or both open,
-   because Mesh.rotate90 keeps the boundary-condition string attached to the axis names. *)
+   Periodic directions: ANY set of periodic axes; the rotated mesh rotM carries the periodic flags of the
+   two axes exchanged for odd k, as Mesh.rotate90 does. *)
 Theorem dax_rot90 (M : cmesh K) a b k x order g valid (q : idx) z :
   wfM M -> a <> b -> (a < cm_nd M)%nat -> (b < cm_nd M)%nat -> (x < cm_nd M)%nat ->
   (order = 1 \/ order = 2)%nat ->
-  (Z.odd k = true -> nth a (cm_per M) false = nth b (cm_per M) false) ->
   in_rng (cm_sh (rotM M a b k)) q ->
   dax K (rotM M a b k) order x
       (rot90 (cm_sh M ++ [1%nat]) a b k g) (rot90 (cm_sh M) a b k valid) (q ++ [z])
   = msgn (rot_fl a b k x) order
       (rot90 (cm_sh M ++ [1%nat]) a b k (dax K M order (src_ax a b k x) g valid) (q ++ [z])).
 Proof.
-  intros Hwf Hab Ha Hb Hx Ho Hper Hq.
+  intros Hwf Hab Ha Hb Hx Ho Hq.
   assert (La : (a < length (cm_sh M))%nat) by exact Ha.
   assert (Lb : (b < length (cm_sh M))%nat) by exact Hb.
   assert (Na : nth a (cm_sh M ++ [1%nat]) 0%nat = nth a (cm_sh M) 0%nat) by (apply app_nth1; exact La).
@@ -334,7 +331,7 @@ Proof.
     change (swap_ax a b (flip_ax (cm_sh M) b (dax K M order (sigma a b x) g valid)) (q ++ [z]))
       with (dax K M order (sigma a b x) g valid (flipi (cm_sh M) b (swapi a b (q ++ [z])))).
     rewrite swapi_app by lia. rewrite flipi_app by (rewrite swapi_length; lia).
-    apply (rot1 M a b Hwf Hab Ha Hb x order g valid q z Ho Hx (Hper eq_refl)). split; assumption.
+    apply (rot1 M a b Hwf Hab Ha Hb x order g valid q z Ho Hx). split; assumption.
   - rewrite !(flip_ax_sh1 (cm_sh M) 1%nat b) by exact Lb.
     rewrite !(flip_ax_sh1 (cm_sh M) 1%nat a) by exact La.
     change (flip_ax (cm_sh M) b (flip_ax (cm_sh M) a (dax K M order x g valid)) (q ++ [z]))
@@ -346,7 +343,7 @@ Proof.
     change (flip_ax (swap_nth 0%nat a b (cm_sh M)) b (swap_ax a b (dax K M order (sigma a b x) g valid)) (q ++ [z]))
       with (dax K M order (sigma a b x) g valid (swapi a b (flipi (swap_nth 0%nat a b (cm_sh M)) b (q ++ [z])))).
     rewrite flipi_app by lia. rewrite swapi_app by (rewrite flipi_length; lia).
-    apply (rot3 M a b Hwf Hab Ha Hb x order g valid q z Ho Hx (Hper eq_refl)). split; assumption.
+    apply (rot3 M a b Hwf Hab Ha Hb x order g valid q z Ho Hx). split; assumption.
 Qed.
 
 End Rot.
